@@ -15,7 +15,8 @@
 (*         or without an embedded sender claim; outsiders send too.        *)
 (* Part 3  the digest model: which byte string ends up being signed for a  *)
 (*         requested digest and which digests the scheme's standard        *)
-(*         verifier accepts for that signature.                            *)
+(*         verifier accepts for that signature (with the behaviour before  *)
+(*         the EdDSA full-length repair kept as a must-fail variant).      *)
 (* Short URLs: the prefix "type.googleapis.com/binance.tsslib." is dropped.*)
 (***************************************************************************)
 EXTENDS Integers, Sequences, FiniteSets, TLC
@@ -79,8 +80,12 @@ P256N == << 255,255,255,255, 0,0,0,0, 255,255,255,255, 255,255,255,255,
 \* the integer the adapter hands to the library, as its minimal big-endian byte string (= big.Int.Bytes()):
 \*   eddsa: big.Int.SetBytes(digest);  ecdsa: hashToInt = leftmost `ob' bytes (order bits = 8*ob for P-256, no shift)
 AdapterInt(ad, d, ob) == IF ad = "eddsa" THEN Strip(d) ELSE Strip(Take(d, ob))
-\* the library signs m.Bytes() (no fullBytesLen is passed), so that is also the message that is actually signed
-Signed(ad, d, ob) == AdapterInt(ad, d, ob)
+\* the message that is actually signed.  eddsa: the adapter passes the digest length to the library (fullBytesLen), which
+\* signs the integer filled up to that length, i.e. the digest itself;  ecdsa: the integer is the message
+Signed(ad, d, ob) == IF ad = "eddsa" THEN d ELSE AdapterInt(ad, d, ob)
+\* must-fail variant (the behaviour before the repair "eddsa adapter: sign the digest in its full length"): without the length
+\* the library signs m.Bytes(), so a leading zero byte of an EdDSA digest is lost in the big.Int round trip
+SignedStripped(ad, d, ob) == AdapterInt(ad, d, ob)
 \* the library refuses an ECDSA message integer >= the group order ("hashed message is not valid")
 Refuses(ad, d, ob, n) == ad = "ecdsa" /\ Ge(AdapterInt(ad, d, ob), Strip(n))
 \* the scheme's standard verifier: Ed25519 takes the message bytes verbatim; ECDSA maps the digest to an integer itself
@@ -88,21 +93,27 @@ StdAccepts(ad, d2, signed, ob) == IF ad = "eddsa" THEN d2 = signed ELSE Strip(Ta
 \* two byte strings that the STANDARD regards as the same message
 SameMessage(ad, d1, d2, ob) == IF ad = "eddsa" THEN d1 = d2 ELSE Strip(Take(d1, ob)) = Strip(Take(d2, ob))
 
-\* C19, last clause, for one requested digest d against a universe U of other digests
-SignedDigestIsRequested(ad, d, U, ob) ==
-  /\ StdAccepts(ad, d, Signed(ad, d, ob), ob)
-  /\ \A d2 \in U : StdAccepts(ad, d2, Signed(ad, d, ob), ob) => SameMessage(ad, d2, d, ob)
-\* named deviation of the pinned code: a leading zero byte of an EdDSA digest is lost (big.Int round trip)
-LeadingZeroStripped(ad, d) == ad = "eddsa" /\ d # <<>> /\ d[1] = 0
-DigestClass(ad, d) == IF LeadingZeroStripped(ad, d) THEN "leading-zero" ELSE "other"
+\* C19, last clause, for one requested digest d against a universe U of other digests, given the message sg that was signed
+RequestedOnly(ad, d, sg, U, ob) ==
+  /\ StdAccepts(ad, d, sg, ob)
+  /\ \A d2 \in U : StdAccepts(ad, d2, sg, ob) => SameMessage(ad, d2, d, ob)
+SignedDigestIsRequested(ad, d, U, ob) == RequestedOnly(ad, d, Signed(ad, d, ob), U, ob)
+\* input class used to label a failing case (a digest the big.Int round trip would shorten)
+LeadingZero(ad, d) == ad = "eddsa" /\ d # <<>> /\ d[1] = 0
+DigestClass(ad, d) == IF LeadingZero(ad, d) THEN "leading-zero" ELSE "other"
 
-\* law checked exhaustively over a small universe (bytes `vals', length <= maxlen, order length ob, order n): the named deviation
-\* is exactly the set of requested digests for which the clause fails
+\* laws checked exhaustively over a small universe (bytes `vals', length <= maxlen, order length ob, order n):
+\*  - the clause holds for every requested digest the library does not refuse;
+\*  - it can fail: with the must-fail variant it is false exactly for the EdDSA digests with a leading zero byte
 DigestUniverse(vals, maxlen) == UNION {[1..k -> vals] : k \in 0..maxlen}
 DigestLaws(vals, maxlen, ob, n) ==
   LET U == DigestUniverse(vals, maxlen) IN
-  \A ad \in {"eddsa", "ecdsa"} : \A d \in U :
-     ~Refuses(ad, d, ob, n) => (SignedDigestIsRequested(ad, d, U, ob) <=> ~LeadingZeroStripped(ad, d))
+  \A ad \in {"eddsa", "ecdsa"} : \A d \in U : ~Refuses(ad, d, ob, n) => SignedDigestIsRequested(ad, d, U, ob)
+StrippedVariantFails(vals, maxlen, ob, n) ==
+  LET U == DigestUniverse(vals, maxlen) IN
+  /\ \E d \in U : ~RequestedOnly("eddsa", d, SignedStripped("eddsa", d, ob), U, ob)
+  /\ \A ad \in {"eddsa", "ecdsa"} : \A d \in U :
+        ~Refuses(ad, d, ob, n) => (RequestedOnly(ad, d, SignedStripped(ad, d, ob), U, ob) <=> ~LeadingZero(ad, d))
 
 \* ---- Part 2: protocol model ---------------------------------------------------------------------------------------------
 CONSTANTS Parties,        \* participants of the session
